@@ -1,21 +1,21 @@
 """C10 - symbolic results do not depend on analysis history.
 
 Per ISA: a block B (1..4 instructions) and a history H of other calls
-(decodes, mapper(instrs), evaluations on concrete states, formatting). Two
-forks of a process that only imported the cpu module:
-  child 1: build map(B), evaluate (e0); run H; evaluate the *old* map (e2)
-  child 2: run H; build map(B), evaluate (e1)
+(decodes, mapper(instrs), evaluations on concrete states, compositions,
+formatting), executed in one process:
+  build map(B), evaluate (e0); run H; evaluate the *old* map (e2); build
+  map(B) again and evaluate (e1)
+Everything that ran earlier in the process is just more history. A difference
+is reported only after it reproduces from a fresh interpreter (replay).
 Required e0 == e1 == e2 by denotation (constants obtained by evaluating the
 map on 3 concrete states; symbolic leftovers make no claim; an exception that
 appears in only one of them is a difference).
 """
 from vlib import isa as visa
-from vlib.pristine import in_child, ChildFailure
 from vlib.runner import Partial, campaign, shard_seed
 from props import C02
 
 ID = "C10"
-HISTORY_IS_VIOLATION = True
 RULE = (
     "per ISA module with semantics: block B of 1..4 and history H of 3..24 instructions, all from the dependency-biased "
     "generator (common integer instructions on a small register set, so that H touches registers B reads; compares, "
@@ -24,10 +24,10 @@ RULE = (
     "by (isa, B bytes, H bytes)."
 )
 ASSUMPTIONS = [
-    "a forked copy of a process that only imported the cpu module is the history-free reference",
+    "the first build of B in the case is the reference; a reported case must reproduce in a fresh interpreter (pristine replay), where that first build is history-free",
     "maps are compared by denotation on 3 concrete states; a location that stays symbolic makes no claim",
 ]
-NCASE = {"quick": 26, "thorough": 2500}
+NCASE = {"quick": 120, "thorough": 6000}
 
 
 def shards(tier, seed):
@@ -76,15 +76,50 @@ def evaluate(I, M, states):
         for r in regs[:4]:
             try:
                 if r.size >= 16:
-                    v = M[r[8:16]] if len(M) else None
-                    row.append(str(v)[:40] if v is not None else None)
+                    v = M(r[8:16]) if len(M) else None
+                    row.append(v.size if v is not None else None)
             except Exception as x:
                 row.append("exc:%s" % type(x).__name__)
         out.append(tuple(row))
     return tuple(out)
 
 
-def run_history(I, H, state):
+def structure(I, M):
+    """observations of the map object itself that no analysis of other code may change: which
+    locations it writes, which memory bytes it covers, and sub-register reads of its entries"""
+    cpu = I.cpu
+    regs = C02.base_registers(cpu)
+    out = []
+    try:
+        out.append(("entries", tuple(sorted(str(loc) for loc, v in M))))
+    except Exception as x:
+        out.append(("entries", "exc:%s" % type(x).__name__))
+    try:
+        cov = []
+        for key, z in M.mmap._zones.items():
+            rs = sorted((o.vaddr, o.vaddr + len(o.data)) for o in z._map)
+            merged = []
+            for lo, hi in rs:
+                if merged and lo <= merged[-1][1]:
+                    merged[-1][1] = max(merged[-1][1], hi)
+                else:
+                    merged.append([lo, hi])
+            cov.append((str(key), tuple(map(tuple, merged))))
+        out.append(("coverage", tuple(sorted(cov))))
+    except Exception as x:
+        out.append(("coverage", "exc:%s" % type(x).__name__))
+    for r in regs[:6]:
+        if r.size >= 16:
+            for lo, hi in ((0, 8), (8, 16), (0, 16)):
+                try:
+                    v = M(r[lo:hi]) if len(M) else r[lo:hi]
+                    out.append(("%s[%d:%d]" % (r, lo, hi), v.size))
+                except Exception as x:
+                    out.append(("%s[%d:%d]" % (r, lo, hi), "exc:%s" % type(x).__name__))
+    return tuple(out)
+
+
+def run_history(I, H, state, env=None):
     from amoco.cas.mapper import mapper
 
     cpu = I.cpu
@@ -104,6 +139,12 @@ def run_history(I, H, state):
                 if prev is not None:
                     _ = prev >> m
                     prev.use()
+                if env is not None:
+                    # the block map is used as the environment of later maps (composition,
+                    # evaluation of their loads in it): this must not write into it
+                    _ = env >> m
+                    for r in regs[:4]:
+                        env(m(r)) if len(m) else None
                 prev = m
             str(i)
         except (Exception, visa.HarnessTimeout):
@@ -111,59 +152,50 @@ def run_history(I, H, state):
 
 
 def case_children(I, case):
-    """returns (e0, e2, e1) or None if B does not build"""
+    """in-process history: build map(B), evaluate (e0); run H; evaluate the old map (e2); build
+    map(B) again, evaluate (e1). Everything that ran earlier in this process is just more history:
+    any difference is a violation; a reported case must reproduce in a fresh interpreter."""
     from amoco.config import conf
+    from props.C02 import sign_dependent
 
     B = [bytes.fromhex(h) for h in case["B"]]
     H = [bytes.fromhex(h) for h in case["H"]]
     states = case["states"]
-
-    def setup():
-        conf.Cas.noaliasing = case["noalias"]
-        I.set_mode(case["mode"], case["endian"])
-
-    def child1():
-        setup()
+    old = conf.Cas.noaliasing
+    conf.Cas.noaliasing = case["noalias"]
+    I.set_mode(case["mode"], case["endian"])
+    try:
         try:
             M, ins = build_block(I, B)
         except (Exception, visa.HarnessTimeout):
+            I.reset_decoder()
             return None
         if M is None:
             return None
+        s0 = structure(I, M)
         e0 = evaluate(I, M, states)
-        run_history(I, H, states[0])
-        e2 = evaluate(I, M, states)
-        from props.C02 import sign_dependent
-
+        s1 = structure(I, M)
         sd = []
         for r in C02.base_registers(I.cpu):
             try:
                 sd.append(bool(sign_dependent(M[r])))
             except Exception:
                 sd.append(False)
-        return e0, e2, sd
-
-    def child2():
-        setup()
-        run_history(I, H, states[0])
+        run_history(I, H, states[0], env=M)
+        s2 = structure(I, M)
+        e2 = evaluate(I, M, states)
         try:
-            M, ins = build_block(I, B)
+            M1, ins = build_block(I, B)
         except (Exception, visa.HarnessTimeout):
-            return None
-        if M is None:
-            return None
-        return evaluate(I, M, states)
-
-    try:
-        r1 = in_child(child1, timeout=120)
-        if r1 is None:
-            return None
-        r2 = in_child(child2, timeout=120)
-    except ChildFailure:
-        return None
-    if r2 is None:
-        return ("B-builds-only-before-H",)
-    return r1[0], r1[1], r2, r1[2]
+            I.reset_decoder()
+            M1 = None
+        if M1 is None:
+            return ("B-builds-only-before-H",)
+        e1 = evaluate(I, M1, states)
+        return e0, e2, e1, sd, (s0, s1, s2)
+    finally:
+        conf.Cas.noaliasing = old
+        I.reset_mode()
 
 
 def differ(x, y, sd):
@@ -190,7 +222,11 @@ def check_case(I, case):
         return "skip"
     if len(r) == 1:
         return ("build-depends-on-history:%s" % I.short, "B builds before H but not after it")
-    e0, e2, e1, sd = r
+    e0, e2, e1, sd, (s0, s1, s2) = r
+    for a, b, what in ((s0, s1, "evaluating it on concrete states"), (s1, s2, "analysing other instructions")):
+        if a != b:
+            df = [(x, y) for x, y in zip(a, b) if x != y][:2]
+            return ("old-map-structure:%s" % I.short, "the block map changed by %s: %r; B=%s H=%s" % (what, df, case["B"], case["H"]))
     d = differ(e0, e2, sd)
     if d is not None:
         cls = "signdep" if d[4] else ("exception" if isinstance(d[2], str) or isinstance(d[3], str) else "value")
